@@ -717,6 +717,8 @@ impl BytecodeVM {
     /// This method enables step-by-step execution for host-controlled interruption.
     #[inline]
     pub fn step(&mut self, interp: &mut Interpreter) -> VmStepResult {
+        #[cfg(tsrun_verif)]
+        crate::verif_hooks::count_instruction();
         let Some(op) = self.fetch() else {
             // End of bytecode - return last result or undefined
             let result = self
@@ -874,10 +876,16 @@ impl BytecodeVM {
     /// This method runs until a terminal state is reached. For step-by-step control,
     /// use the `step()` method instead.
     pub fn run(&mut self, interp: &mut Interpreter) -> VmResult {
+        #[cfg(tsrun_verif)]
+        crate::verif_hooks::enter_run();
         loop {
             match self.step(interp) {
                 VmStepResult::Continue => continue,
-                VmStepResult::Terminal(result) => return *result,
+                VmStepResult::Terminal(result) => {
+                    #[cfg(tsrun_verif)]
+                    crate::verif_hooks::leave_run();
+                    return *result;
+                }
             }
         }
     }
